@@ -19,7 +19,7 @@ def _truthy(v):
 @contract
 class on_interest_v1(Contract):
     fn = app1.NDNApp._on_interest
-    props = ('C04', 'C05')
+    props = ('C04', 'C05', 'C06')
     doc = ('legacy _on_interest: the only handler that can be invoked is the one stored at the longest registered prefix (assumed '
            'pygtrie contract), at most once, none when nothing matches or the node has no callback; an Interest with '
            'ApplicationParameters or a signature is dropped unless its parameters digest is right; a SIGNED Interest reaches the '
